@@ -211,7 +211,11 @@ func init() {
 				q2 := cloneJ(q.Body)
 				var bl []interface{}
 				for i, nb := 0, r.rangeInt(1, 2); i < nb; i++ {
-					name := []string{"criteriaOmission", "criteriaOmission", "preferenceReversal", "fatigue"}[r.Intn(4)]
+					// (majority admits criterion-adding biases: the listener's Merge must carry the configuration too)
+					name := []string{"criteriaOmission", "criteriaOmission", "preferenceReversal", "fatigue", "criteriaConcealment", "criteriaMixing"}[r.Intn(6)]
+					if i > 0 && name == "criteriaMixing" { // mixing after a state change: registered finding of C07/C18
+						name = "criteriaConcealment"
+					}
 					pr := biasPropsJSON(r, name, q.Problem)
 					if name == "criteriaOmission" {
 						pr["max"] = len(d.Criteria) - 1 - i
